@@ -33,6 +33,12 @@ impl BytesMut {
 impl Bytes {
     #[verifier::external_body]
     pub fn len(&self) -> (r: usize) ensures r == self@.len() { unimplemented!() }
+    /// Bytes::slice(..n) (not used by the code under contract today: present so that a change introducing it is decided)
+    #[verifier::external_body]
+    pub fn slice(&self, r: core::ops::RangeTo<usize>) -> (o: Bytes)
+        requires r.end <= self@.len(),      // bytes::Bytes::slice panics otherwise
+        ensures o@ == self@.take(r.end as int),
+    { unimplemented!() }
 }
 impl vstd::std_specs::core::IndexSpecImpl<usize> for Bytes {
     open spec fn index_req(&self, i: &usize) -> bool { *i < self@.len() }
@@ -121,7 +127,7 @@ impl ProtocolHeaderCodec {
 //@@ fn file=fe2o3-amqp/src/transport/protocol_header.rs impl=`impl Decoder for ProtocolHeaderCodec` name=decode
 //@@ ret Result<Option<ProtocolHeader>, NegotiationError>
 //@@ param src : &mut BytesMut
-//@@ subst `ProtocolHeader::try_from(bytes) .map(Some) .map_err(NegotiationError::ProtocolHeaderMismatch)` => `ProtocolHeader::try_from_bytes(bytes).map(|h: ProtocolHeader| -> (o: Option<ProtocolHeader>) ensures o == Some(h) { Some(h) }).map_err(|b: Bytes| -> (o: NegotiationError) ensures o == NegotiationError::ProtocolHeaderMismatch(b) { NegotiationError::ProtocolHeaderMismatch(b) })` rule=R16,R18
+//@@ subst `ProtocolHeader::try_from(__E1) .map(Some) .map_err(NegotiationError::ProtocolHeaderMismatch)` => `ProtocolHeader::try_from_bytes(__E1).map(|h: ProtocolHeader| -> (o: Option<ProtocolHeader>) ensures o == Some(h) { Some(h) }).map_err(|b: Bytes| -> (o: NegotiationError) ensures o == NegotiationError::ProtocolHeaderMismatch(b) { NegotiationError::ProtocolHeaderMismatch(b) })` rule=R16,R18
 //@@ spec
     ensures
         old(src)@.len() < 8 ==> r == Ok::<Option<ProtocolHeader>, NegotiationError>(None) && final(src)@ == old(src)@,       // [C06.header.waits-for-eight-octets] fewer than 8 octets: nothing is consumed, the codec waits (however the stream is fragmented)
